@@ -9,6 +9,7 @@ import CSD.Lemmas.IdIter
 import CSD.Lemmas.FM17
 import CSD.Lemmas.RPDACIter
 import CSD.Lemmas.PFCRange
+import CSD.Lemmas.RPFC10
 
 namespace CSD.Props.C13
 open CSD CSD.PFC
@@ -102,5 +103,29 @@ expansion per `next`) yields exactly the members in ID order, over any grammar a
 the dictionary; it never reads a position past the list. -/
 theorem rpdac_table_scan_exact (d : RPDAC.D) (S : List Str) (r : RPDAC.Represents d S) :
     RPDAC.extractTable d = some (S.map RPDAC.bytesNat) := RPDAC.extractTable_represents d S r
+
+/-! ### RPFC -/
+
+/-- **RPFC table scan** (`IteratorDictStringRPFC` from bucket 1, offset 0, `elements` strings): over every
+grammar and symbol streams that store the dictionary the drained iterator is the sorted input — the `k`-th
+string is `extract(k)` (`rpfc_extract_exact` of C01) — and `hasNext` is false afterwards. -/
+theorem rpfc_table_scan_exact {S : List Str} {d : RPFC.D} (hst : RPFC.Stores S d) (hv : validDict S = true) :
+    RPFC.extractTable d = some S := by
+  obtain ⟨hne, _, _, _⟩ := validDict_facts hv
+  exact RPFC.extractTable_stores hst hne
+
+/-- **RPFC scans starting at any in-bucket offset**: the iterator over the ID range `[left, right]` yields
+exactly the members with those IDs, in order, and stops there. -/
+theorem rpfc_range_scan_exact {S : List Str} {d : RPFC.D} (hst : RPFC.Stores S d) (left right : Nat)
+    (h1 : 1 ≤ left) (h2 : left ≤ right) (h3 : right ≤ S.length) :
+    RPFC.scanRange d left right = some ((S.drop (left - 1)).take (right - left + 1)) :=
+  RPFC.scanRange_stores hst left right h1 h2 h3
+
+/-- The RPFC iterator model was written against the current text of the C++ functions it mirrors. -/
+theorem rpfc_iterator_models_match_source_text :
+    Generated.body_RPFC_extractTable = SourceText.body_RPFC_extractTable ∧
+    Generated.body_RPFCIter_ctor = SourceText.body_RPFCIter_ctor ∧
+    Generated.body_RPFCIter_next = SourceText.body_RPFCIter_next ∧
+    Generated.body_RPFCIter_decodeNext = SourceText.body_RPFCIter_decodeNext := ⟨rfl, rfl, rfl, rfl⟩
 
 end CSD.Props.C13
